@@ -2,7 +2,7 @@
 import random
 
 from . import families as fm
-from . import lpcheck
+from . import lpcheck, solverplay
 
 RULES = {
     'C01': 'instance files and option sets constructed by TLC (families in notes); every optimal point of the last solve is '
@@ -107,21 +107,29 @@ def runs_for(pid, tier, seed):
             R('hr2', fm.hr2(CritLists=none, ReportCap=64, Stabs={False}, PCs={False, True})),
             R('wide', fm.wide(CritLists=none + [(fm.C('maxsize'),)], ReportCap=12, PCs={True}), simulate=2000 if q else 30000),
             R('shared3', fm.shared3(CritLists=none, ReportCap=64, Stabs={False}, PCs={True}), simulate=2000 if q else None),
+            R('11 projects (two-digit ids)', fm.twodigit_projects(CritLists=none + [(fm.C('maxsize'),)], ReportCap=6), simulate=1200 if q else 15000),
+            R('10 students (two-digit ids)', fm.twodigit_students(CritLists=[(fm.C('maxsize'),), (fm.C('maxsize'), fm.C('mincost'))], ReportCap=3),
+              simulate=400 if q else 5000, invariants=['FamilyWellFormed', 'ReportedValid', 'StatusIffFeasible', 'Export']),
         ]
         return runs
     if pid == 'C10':
         st = {'plain', 'wide', 'tabs'}
+        ld = dict(CritLists=none, CheckText=True, Styles=st, InfoBlocks={False, True}, PCs={False}, Stabs={False}, ReportCap=0,
+                  ExportMode='load')
+        inv = ['FamilyWellFormed', 'ReadRender', 'Export']
         runs = [
-            R('s2core/text', fm.s2core(CritLists=none, OrderMode='all', CheckText=True, Styles=st, InfoBlocks={False, True},
-                                       PCs={False}, Stabs={False}, ReportCap=0, PQ={(0, 1), (1, 2)}, LQ={(0, 1, 1), (1, 1, 2)}),
-              simulate=6000 if q else None),
-            R('hr2/text', fm.hr2(CritLists=none, CheckText=True, Styles=st, InfoBlocks={False, True}, PCs={False}, Stabs={False},
-                                 ReportCap=0), simulate=5000 if q else None),
-            R('wide/text', fm.wide(CritLists=none, CheckText=True, Styles=st, InfoBlocks={False, True}, PCs={False},
-                                   Stabs={False}, ReportCap=0), simulate=2000 if q else 30000),
-            R('wide-hr/text', fm.wide(na=2, CritLists=none, CheckText=True, Styles=st, InfoBlocks={False, True}, PCs={False},
-                                      Stabs={False}, ReportCap=0), simulate=2000 if q else 30000),
+            R('s2core/text', fm.s2core(OrderMode='all', PQ={(0, 1), (1, 2)}, LQ={(0, 1, 1), (1, 1, 2)}, **ld), invariants=inv,
+              simulate=8000 if q else None),
+            R('hr2/text', fm.hr2(**ld), invariants=inv, simulate=6000 if q else None),
+            R('wide/text', fm.wide(**ld), invariants=inv, simulate=4000 if q else 40000),
+            R('wide-hr/text', fm.wide(na=2, **ld), invariants=inv, simulate=3000 if q else 40000),
+            R('11 projects/text', fm.twodigit_projects(TieMode='all', **ld), invariants=inv, simulate=1500 if q else 15000),
+            R('10 students/text', fm.twodigit_students(OrderMode='asctied', **ld), invariants=inv, simulate=800 if q else 8000),
+            R('12 students, ties everywhere/text', fm.twodigit_students(NS=12, NP=3, MaxLen=3, TieMode='all', OrderMode='asctied', **ld),
+              invariants=inv, simulate=500 if q else 5000),
         ]
+        for r in runs:
+            r['worker'] = solverplay.replay_load
         return runs
     raise KeyError(pid)
 
